@@ -4,7 +4,7 @@
 -/
 import BufrModel.Lang.PathParser
 import BufrModel.Spec.PathGrammar
-import BufrModel.Lemmas.PathParser
+import BufrModel.Lemmas.PathTop
 namespace Bufr.PathLang
 
 /-- A path as the grammar can produce it. -/
@@ -24,11 +24,20 @@ def Path.Canonical (p : Path) : Prop :=
     accepts is rejected, and no part of an accepted string is dropped. -/
 theorem C15_parse_iff_grammar (s : List Char) (p : Path) :
     parse s = .ok p ↔ Spec.recognise s = some p := by
-  sorry
+  have h := parse_agree s
+  unfold AgreeTop at h
+  cases hr : Spec.recognise s with
+  | none => rw [hr] at h; simp [h]
+  | some q => rw [hr] at h; simp [h]
 
 /-- Every rejection is the path-parsing error (the `assert` in `create_slice_object` is unreachable). -/
 theorem C15_reject_is_path_error (s : List Char) (e : Err) : parse s = .error e → e = .path := by
-  sorry
+  intro he
+  have h := parse_agree s
+  unfold AgreeTop at h
+  cases hr : Spec.recognise s with
+  | none => rw [hr, he] at h; injection h
+  | some q => rw [hr, he] at h; cases h
 
 /-- Accepted strings yield canonical paths ... -/
 theorem C15_parse_canonical (s : List Char) (p : Path) : parse s = .ok p → p.Canonical := by
